@@ -99,6 +99,37 @@ class Repo:
                     t = node.targets[0]
                     if isinstance(t, ast.Name):
                         self.module_assigns[t.id] = node.value
+        self._mark_opaque_with()
+
+    def _mark_opaque_with(self):
+        """`with <object of a class / result of a function defined in the package>`: the statements of its __enter__ / __exit__ run at
+        the borders of the block but are not part of the function's own control flow.  What the normaliser could read as the
+        try/finally it packages is gone by now; what is left is marked, and every analysis that builds the function's flow graph or
+        interprets it says so (ANALYSIS-ERROR) instead of reading the block as if nothing happened at its borders."""
+        for q, fn in self.functions.items():
+            cls = q.split(".")[0] if "." in q else None
+            for n in walk_no_nested(fn):
+                if not isinstance(n, (ast.With, ast.AsyncWith)):
+                    continue
+                for it in n.items:
+                    e = it.context_expr
+                    if isinstance(e, ast.Name):
+                        defs = [a for a in walk_no_nested(fn) if isinstance(a, ast.Assign) and len(a.targets) == 1 and isinstance(a.targets[0], ast.Name)
+                                and a.targets[0].id == e.id]
+                        e = defs[0].value if len(defs) == 1 else e
+                    if not isinstance(e, ast.Call):
+                        continue
+                    f = e.func
+                    callee = None
+                    if isinstance(f, ast.Name) and (f.id in self.classes or f.id in self.functions):
+                        callee = f.id
+                    elif isinstance(f, ast.Attribute) and isinstance(f.value, ast.Name) and f.value.id in ("self", "cls", cls or "") and cls \
+                            and f"{cls}.{f.attr}" in self.functions:
+                        callee = f"{cls}.{f.attr}"
+                    if callee:
+                        msg = f"{q}: `with {unparse(it.context_expr)[:40]}` enters a context manager defined in the package ({callee}); its enter / exit code is not part of the analysed control flow"
+                        n._opaque_cm = msg  # type: ignore[attr-defined]
+                        fn._opaque_cm = msg  # type: ignore[attr-defined]
 
     def module(self, rel: str) -> Module:
         if rel not in self.modules:
